@@ -553,9 +553,15 @@ def evaluate(cases, res, rng, producer_sample=150):
         elif case["t"] in ("ver", "verdefault", "respver"):
             judge.append(f"ver dec {hexs(o['message'])}")
             judge_at.append((ci, "fields"))
-    answers = driver_batch(lines + judge)
+    resp_at = [ci for ci, (case, o) in enumerate(zip(cases, impl)) if case["t"].startswith("resp") and o["bytes"] is not None]
+    resp_lines = [f"respond {48 if cases[ci]['t'] == 'respnet' else 64} {cases[ci]['rq_rc']} {cases[ci]['rq_sd']} {cases[ci]['rq_et']} "
+                  f"{cases[ci]['rq_ev']} {hexs(impl[ci]['message'])}" for ci in resp_at]
+    answers = driver_batch(lines + judge + resp_lines)
     model = answers[:len(lines)]
-    verdicts = answers[len(lines):]
+    verdicts = answers[len(lines):len(lines) + len(judge)]
+    for ci, ans in zip(resp_at, answers[len(lines) + len(judge):]):
+        if ans != hexs(impl[ci]["bytes"]):
+            res.fail("corr", cases[ci], ans, impl[ci]["bytes"].hex(), "answer model (Resp.respond) and Request.response() differ")
     spec_failed = set()
     for (ci, what), v in zip(judge_at, verdicts):
         case, o = cases[ci], impl[ci]
